@@ -354,6 +354,16 @@ def run_cases(exe, casefile, env=None, timeout=1800, max_restarts=200, extra_arg
             elif line:
                 results[line] = ''
         if rc == 0:
+            # the code under test may have called exit() in the middle of a case: that case has no result line
+            running = re.findall(r'^@case (\S+)', err, re.M)
+            if running and running[-1] not in results and running[-1] in ids:
+                cur = running[-1]
+                results[cur] = 'CRASH:exit0'
+                restarts += 1
+                i = ids.index(cur)
+                if i + 1 < len(ids) and restarts <= max_restarts:
+                    start = ids[i + 1]
+                    continue
             break
         if rc == 124:
             running = re.findall(r'^@case (\S+)', err, re.M)
